@@ -16,7 +16,16 @@ CubeShapes == << <<2, 2, 2>>, <<2, 2, 3>>, <<3, 3, 3>>, <<2, 2, 4>>, <<5, 5, 5>>
                  <<7, 7, 7>>, <<3, 5, 7>>, <<4, 3, 2>>, <<2, 7, 3>> >>
 ASSUME {NPoints(CubeShapes[x_]) % PerLine : x_ \in 1..Len(CubeShapes)} = 0..PerLine - 1
 CubeCases == [x_ \in 1..Len(CubeShapes) |-> [shape |-> CubeShapes[x_], natom |-> 1 + (x_ % 3)]]
-ASSUME Emit => JsonSerialize("cases_cube.json", [cases |-> CubeCases, angstrom_to_bohr |-> AngstromToBohr])
+\* "all data arrays": the forms in which the data / the geometry can be handed to the writer, the
+\* boundary case of a file without atoms, coordinates wider than the 11.6f field, and a file name
+\* that is written a second time (the file must be replaced, not appended to or partly overwritten)
+DataForms == <<"cube3d", "fortran", "strided", "float32", "int", "int-geometry", "no-atoms", "wide-geometry", "rewrite">>
+ExtraShapes == << <<2, 3, 5>>, <<3, 2, 2>>, <<2, 2, 4>>, <<3, 3, 3>>, <<4, 3, 2>>, <<2, 7, 3>>, <<2, 2, 3>>, <<3, 5, 7>>, <<2, 2, 2>> >>
+CubeExtraCases == [x_ \in 1..Len(DataForms) |->
+                      [shape |-> ExtraShapes[x_], natom |-> IF DataForms[x_] = "no-atoms" THEN 0 ELSE 1 + (x_ % 3),
+                       form |-> DataForms[x_]]]
+ASSUME Len(ExtraShapes) = Len(DataForms)
+ASSUME Emit => JsonSerialize("cases_cube.json", [cases |-> CubeCases, extra |-> CubeExtraCases, angstrom_to_bohr |-> AngstromToBohr])
 
 VARIABLES kpc, kn
 Init == kpc = "idle" /\ kn = 0
